@@ -12,7 +12,7 @@
 From Coq Require Import List ZArith Bool.
 From SVC Require Import Base.AMap Base.Res Base.Dec Model.Types Model.Pricing
   Model.Handlers Model.EndBlock Model.Step Proofs.Inv Proofs.CtxOps Proofs.StepSpecs_batch
-  Proofs.StepSpecs_batch_block Proofs.ThrProofs.
+  Proofs.StepSpecs_batch_block Proofs.ThrProofs Proofs.GapC06.
 Import ListNotations.
 Open Scope Z_scope.
 
@@ -171,3 +171,116 @@ Theorem C06_batch_threshold : forall cfg s c,
           \/ (0 < len E /\ c_thr rc <= len E /\ c_breq rc' = len E)).
 Proof. exact ThrProofs.C06_batch_threshold. Qed.
 Print Assumptions C06_batch_threshold.
+
+(* ------------------------------------------------------------------ *)
+(* Block level with the consumer's balance pinned, and the history-level statement
+   (Proofs/GapC06.v).
+
+   NOTE: the price compared with the cap and charged ([exchanged_price], via [eligible] and
+   [sum_prices]) and the fee stored on the request ([get_price]) are the same term in the model
+   (Model/Pricing.v); in Go they are two functions whose agreement is tied by the correspondence,
+   not by a Coq theorem (see the note in Properties/C07.v).
+
+   [new_outcome s rc] is the decision of abci.go newRequestBatchHandler as a function of what it
+   reads in s: ONotRunning (state not Running) / ORemoved (running, repeated, 0 < total <= counter)
+   / OSkipped (no eligible provider, or fewer than the threshold) / OPausedFunds (not super mode and
+   balance of the consumer < total price of the eligible providers) / OIssued (otherwise). *)
+
+(* the handler, read as a function of the decision *)
+Theorem C06_new_one_by_outcome : forall cfg s c,
+  wf_cfg cfg -> Inv cfg s -> In (height s, c) (newq s) -> height s < HEIGHT_BOUND ->
+  exists rc, get c (ctxs s) = Some rc /\
+    let E := filter_providers s rc (c_provs rc) in
+    let s' := new_one cfg s c in
+    let charge := if c_super rc then 0 else sum_prices E in
+    match new_outcome s rc with
+    | ONotRunning => get c (ctxs s') = Some rc /\ reqs s' = reqs s /\ bank s' = bank s
+    | ORemoved => get c (ctxs s') = None /\ reqs s' = reqs s /\ bank s' = bank s
+    | OSkipped => get c (ctxs s') = Some (bump rc 0) /\ reqs s' = reqs s /\ bank s' = bank s
+    | OPausedFunds => get c (ctxs s') = Some (paused_ctx rc) /\ reqs s' = reqs s /\ bank s' = bank s
+    | OIssued =>
+        get c (ctxs s') = Some (bump rc (len E))
+        /\ (forall k p price, nth_error E k = Some (p, price) ->
+              get (c, c_counter rc + 1, height s, Z.of_nat k) (reqs s')
+              = Some (mkReq p (if c_super rc then 0 else price) (height s + c_timeout rc) true))
+        /\ (forall a, bal s' a = bal s a - (if eqb a (User (c_cons rc)) then charge else 0)
+                                         + (if eqb a Escrow then charge else 0))
+        /\ 0 <= charge <= bal s (User (c_cons rc))
+    end.
+Proof. exact GapC06.new_one_by_outcome. Qed.
+Print Assumptions C06_new_one_by_outcome.
+
+(* the handler of a context moves no balance but its own consumer's and the escrow's *)
+Theorem C06_new_one_bal_other : forall cfg s c,
+  wf_cfg cfg -> Inv cfg s -> In (height s, c) (newq s) -> height s < HEIGHT_BOUND ->
+  exists rc, get c (ctxs s) = Some rc
+    /\ forall a, a <> User (c_cons rc) -> a <> Escrow -> bal (new_one cfg s c) a = bal s a.
+Proof. exact GapC06.new_one_bal_other. Qed.
+Print Assumptions C06_new_one_bal_other.
+
+(* ONE WHOLE EndBlock, a context c due for a new batch after the expiry phase, whose consumer has
+   no other context due in this block.  The outcome is DECIDED by [new_outcome] on the post-expiry
+   state sx (record, bindings, prices, volumes, time AND the consumer's balance there); in each case
+   the record of c, its request records and the consumer's balance after the whole EndBlock:
+   no requests and NO CHARGE when not running / removed / skipped / paused for funds; when issued,
+   exactly one request per eligible provider in order and a charge of exactly the sum of their
+   prices (0 in super mode), which the consumer could pay.
+   (With several due contexts of one consumer the deciding balance is the post-expiry balance minus
+   the charges of those handled earlier, in id order: C06_end_block_handler + C06_new_one_by_outcome
+   + C06_new_one_bal_other give it one handler at a time.) *)
+Theorem C06_end_block_outcome : forall cfg s dt c rc,
+  wf_cfg cfg -> Inv cfg s -> height s < HEIGHT_BOUND ->
+  let sx := fold_left (expire_one cfg) (due (expq s) (height s)) s in
+  let sf := end_block cfg s dt in
+  In (height s, c) (newq sx) -> get c (ctxs sx) = Some rc ->
+  (forall c' rc', In (height s, c') (newq sx) -> c' <> c -> get c' (ctxs sx) = Some rc' ->
+                  c_cons rc' <> c_cons rc) ->
+  let E := filter_providers sx rc (c_provs rc) in
+  let charge := if c_super rc then 0 else sum_prices E in
+  let kept := (forall r, rid_ctx r = c -> get r (reqs sf) = get r (reqs sx))
+              /\ bal sf (User (c_cons rc)) = bal sx (User (c_cons rc)) in
+  match new_outcome sx rc with
+  | ONotRunning => get c (ctxs sf) = Some rc /\ kept
+  | ORemoved => get c (ctxs sf) = None /\ kept
+  | OSkipped => get c (ctxs sf) = Some (bump rc 0) /\ kept
+  | OPausedFunds => get c (ctxs sf) = Some (paused_ctx rc) /\ kept
+  | OIssued =>
+      get c (ctxs sf) = Some (bump rc (len E))
+      /\ (forall k p price, nth_error E k = Some (p, price) ->
+            get (c, c_counter rc + 1, height s, Z.of_nat k) (reqs sf)
+            = Some (mkReq p (if c_super rc then 0 else price) (height s + c_timeout rc) true))
+      /\ bal sf (User (c_cons rc)) = bal sx (User (c_cons rc)) - charge
+      /\ 0 <= charge <= bal sx (User (c_cons rc))
+  end.
+Proof. exact GapC06.end_block_outcome. Qed.
+Print Assumptions C06_end_block_outcome.
+
+(* over histories: EVERY request record stored in ANY reachable state went, when it was issued
+   (by the EndBlock of the earlier reachable state s0 of height rid_height r), to a provider named
+   in its context and eligible against the post-expiry state of that block, for a fee within the
+   cap then in force; provider, fee and expiry height have not changed since *)
+Theorem C06_request_eligible_reach : forall cfg s r q,
+  wf_cfg cfg -> Reach cfg s -> get r (reqs s) = Some q ->
+  exists s0 rc0 price,
+    Reach cfg s0 /\ height s0 = rid_height r /\ height s0 < height s
+    /\ let sx0 := fold_left (expire_one cfg) (due (expq s0) (height s0)) s0 in
+       get (rid_ctx r) (ctxs sx0) = Some rc0
+       /\ In (r_prov q) (c_provs rc0)
+       /\ eligible sx0 rc0 (r_prov q) = Some price
+       /\ r_fee q = (if c_super rc0 then 0 else price)
+       /\ 0 <= r_fee q <= c_cap rc0
+       /\ r_exp q = rid_height r + c_timeout rc0.
+Proof. exact GapC06.request_eligible_reach. Qed.
+Print Assumptions C06_request_eligible_reach.
+
+(* satisfiable: in the EndBlock of ExB.s_a (seven contexts due) c3 is the only due context of
+   its consumer, who cannot pay: paused, balance untouched; c6 is the only due context of its
+   consumer, super mode: issued, balance untouched *)
+Theorem C06_end_block_outcome_example :
+  (exists rc3, get ExB.c3 (ctxs ExB.s_a) = Some rc3
+     /\ get ExB.c3 (ctxs (end_block ExB.cfg ExB.s_a 1)) = Some (paused_ctx rc3)
+     /\ bal (end_block ExB.cfg ExB.s_a 1) (User (c_cons rc3)) = bal ExB.s_a (User (c_cons rc3)))
+  /\ (exists rc6, get ExB.c6 (ctxs ExB.s_a) = Some rc6
+        /\ bal (end_block ExB.cfg ExB.s_a 1) (User (c_cons rc6)) = bal ExB.s_a (User (c_cons rc6))).
+Proof. exact GapC06.ExO.outcome_applies. Qed.
+Print Assumptions C06_end_block_outcome_example.
